@@ -229,3 +229,86 @@ Proof.
   destruct tr as [[|]|]; try congruence; rewrite get_first; cbn [update_at]; rewrite Hab; cbn [bind set];
     rewrite String.eqb_refl; rewrite Hn; reflexivity.
 Qed.
+
+(* ---------- a mixed list (roots, unrooted items, rooted nodes of several roots) saved into a fresh file passes the validator *)
+From Emd Require Import Proofs.PMixed.
+
+Lemma add_item_plain tops ts it :
+  Forall (fun t => rcls t = CRoot /\ plain_tree t) ts ->
+  (forall d, rwalk (nth (fst it) tops dummy) (snd it) = Some d -> plain (rname d) = true /\ rname d <> "metadatabundle" /\ rcls d <> CRoot) ->
+  Forall (fun t => rcls t = CRoot /\ plain_tree t) (add_item tops ts it).
+Proof.
+  intros H Hd. unfold add_item. apply Forall_forall. intros T' HT'. apply in_map_iff in HT'. destruct HT' as (T & <- & HT).
+  rewrite Forall_forall in H. destruct (H T HT) as (Hc & Hp).
+  destruct (String.eqb (rname T) (rname (nth (fst it) tops dummy))); [|split; assumption].
+  destruct (rwalk (nth (fst it) tops dummy) (snd it)) as [d|] eqn:Ew; [|split; assumption].
+  destruct (Hd d eq_refl) as (A & B & C).
+  split; [destruct T; exact Hc|]. apply plain_tree_inv. apply plain_tree_inv in Hp.
+  assert (rkids (with_kids T (rkids T ++ [with_kids d []])) = rkids T ++ [with_kids d []]) as -> by (destruct T; reflexivity).
+  apply Forall_app. split; [exact Hp|]. constructor; [|constructor].
+  assert (rname (with_kids d []) = rname d /\ rcls (with_kids d []) = rcls d) as (-> & ->) by (destruct d; split; reflexivity).
+  repeat (split; [assumption|]). apply plain_tree_inv. destruct d; constructor.
+Qed.
+
+Theorem wf_mixed_list_save c tops items md tr :
+  nodup_nat (list_unrooted_idx tops items) = true -> list_conflict tops items = false -> In md allmodes ->
+  let base := (list_saved tops items ++ list_given tops items) ++ list_copies tops items in
+  base <> [] -> Forall (fun t => rcls t = CRoot /\ plain_tree t) base -> Forall ok_tree base -> NoDup (map rname base) ->
+  Forall (fun it => let r := nth (fst it) tops dummy in
+            rcls r = CRoot /\ rname r <> "" /\ no_slash (rname r) = true /\ NoDup (keys (rmds r)) /\
+            exists x data, snd it = [x] /\ rwalk r [x] = Some data /\ rname data = x /\ x <> "metadatabundle" /\
+                           plain x = true /\ rcls data <> CRoot) (list_rooted items) ->
+  NoDup (map (fun it => (rname (nth (fst it) tops dummy), snd it)) (list_rooted items)) ->
+  exists f, write_list c Absent tops items (WA md tr None) = (Ok tt, H5 f) /\ wf_emd c f = true.
+Proof.
+  intros Hidx Hconf Hmd base Hne Hr Hok Hnd Hitems Hpairs.
+  exists (forest_file c (fold_left (add_item tops) (list_rooted items) base)). split.
+  - apply mixed_list_into_a_fresh_file; try assumption.
+    + eapply Forall_impl; [|exact Hr]. cbn. intros a Ha. apply Ha.
+    + eapply Forall_impl; [|exact Hitems]. cbv zeta. intros it (A & B & C & D & x & data & E1 & E2 & E3 & E4 & _). repeat (split; [assumption|]). exists x, data. repeat split; assumption.
+  - apply wf_forest_file.
+    + assert (forall its ts, ts <> [] -> fold_left (add_item tops) its ts <> []) as Hnn.
+      { induction its as [|it q IH]; intros ts Hts; [exact Hts|]. cbn [fold_left]. apply IH. unfold add_item. destruct ts; [congruence|discriminate]. }
+      apply Hnn. exact Hne.
+    + assert (forall its ts, Forall (fun t => rcls t = CRoot /\ plain_tree t) ts ->
+                (forall it, In it its -> forall d, rwalk (nth (fst it) tops dummy) (snd it) = Some d -> plain (rname d) = true /\ rname d <> "metadatabundle" /\ rcls d <> CRoot) ->
+                Forall (fun t => rcls t = CRoot /\ plain_tree t) (fold_left (add_item tops) its ts)) as Hall.
+      { induction its as [|it q IH]; intros ts Hts Hd; [exact Hts|]. cbn [fold_left]. apply IH; [apply add_item_plain; [exact Hts|apply Hd; left; reflexivity]|].
+        intros it2 Hit2. apply Hd. right. exact Hit2. }
+      apply Hall; [exact Hr|]. intros it Hit d Hw. rewrite Forall_forall in Hitems.
+      destruct (Hitems it Hit) as (_ & _ & _ & _ & x & data & E1 & E2 & E3 & E4 & E5 & E6). assert (Hw2 : rwalk (nth (fst it) tops dummy) [x] = Some d) by (rewrite <- E1; exact Hw). assert (Some data = Some d) as Hsd by (transitivity (rwalk (nth (fst it) tops dummy) [x]); [symmetry; exact E2|exact Hw2]). injection Hsd as <-. rewrite E3. repeat split; assumption.
+Qed.
+
+Theorem wf_mixed_list_into_an_existing_file c tops items md tr ts :
+  In md (appendmode ++ appendovermode) -> ts <> [] -> Forall (fun t => rcls t = CRoot /\ plain_tree t) ts ->
+  nodup_nat (list_unrooted_idx tops items) = true -> list_conflict tops items = false ->
+  let base := (list_saved tops items ++ list_given tops items) ++ list_copies tops items in
+  Forall (fun t => rcls t = CRoot /\ plain_tree t) base -> Forall ok_tree base -> NoDup (map rname (ts ++ base)) ->
+  Forall (fun it => let r := nth (fst it) tops dummy in
+            rcls r = CRoot /\ rname r <> "" /\ no_slash (rname r) = true /\ NoDup (keys (rmds r)) /\
+            exists x data, snd it = [x] /\ rwalk r [x] = Some data /\ rname data = x /\ x <> "metadatabundle" /\
+                           plain x = true /\ rcls data <> CRoot) (list_rooted items) ->
+  NoDup (map (fun it => (rname (nth (fst it) tops dummy), snd it)) (list_rooted items)) ->
+  exists f, write_list c (H5 (forest_file c ts)) tops items (WA md tr None) = (Ok tt, H5 f) /\ wf_emd c f = true.
+Proof.
+  intros Hmd Hts Hrts Hidx Hconf base Hr Hok Hnd Hitems Hpairs.
+  exists (forest_file c (fold_left (add_item tops) (list_rooted items) (ts ++ base))). split.
+  - apply mixed_list_into_an_existing_file; try assumption.
+    + eapply Forall_impl; [|exact Hrts]. cbn. intros a Ha. apply Ha.
+    + eapply Forall_impl; [|exact Hr]. cbn. intros a Ha. apply Ha.
+    + eapply Forall_impl; [|exact Hitems]. cbv zeta. intros it (A & B & C & D & x & data & E1 & E2 & E3 & E4 & _). repeat (split; [assumption|]). exists x, data. repeat split; assumption.
+  - apply wf_forest_file.
+    + assert (forall its l, l <> [] -> fold_left (add_item tops) its l <> []) as Hnn.
+      { induction its as [|it q IH]; intros l Hl; [exact Hl|]. cbn [fold_left]. apply IH. unfold add_item. destruct l; [congruence|discriminate]. }
+      apply Hnn. destruct ts; [congruence|discriminate].
+    + assert (forall its l, Forall (fun t => rcls t = CRoot /\ plain_tree t) l ->
+                (forall it, In it its -> forall d, rwalk (nth (fst it) tops dummy) (snd it) = Some d -> plain (rname d) = true /\ rname d <> "metadatabundle" /\ rcls d <> CRoot) ->
+                Forall (fun t => rcls t = CRoot /\ plain_tree t) (fold_left (add_item tops) its l)) as Hall.
+      { induction its as [|it q IH]; intros l Hl Hd; [exact Hl|]. cbn [fold_left]. apply IH; [apply add_item_plain; [exact Hl|apply Hd; left; reflexivity]|].
+        intros it2 Hit2. apply Hd. right. exact Hit2. }
+      apply Hall; [apply Forall_app; split; assumption|]. intros it Hit d Hw. rewrite Forall_forall in Hitems.
+      destruct (Hitems it Hit) as (_ & _ & _ & _ & x & data & E1 & E2 & E3 & E4 & E5 & E6).
+      assert (Hw2 : rwalk (nth (fst it) tops dummy) [x] = Some d) by (rewrite <- E1; exact Hw).
+      assert (Some data = Some d) as Hsd by (transitivity (rwalk (nth (fst it) tops dummy) [x]); [symmetry; exact E2|exact Hw2]). injection Hsd as <-.
+      rewrite E3. repeat split; assumption.
+Qed.
